@@ -393,6 +393,27 @@ func engAcp(e *Env) {
 					e.violate("acp-write-unguarded", fmt.Sprintf("%s changed a document it may not write: before %s after %s", rq.name, canonJSON(before), canonJSON(after)), map[string]any{"requester": rq.name, "document": d.k})
 				}
 			}
+			// read-only access: a requester that may read but not update / delete a private document (reader
+			// relation) must not change it through any write path, including the filter based collection API
+			for _, d := range docs {
+				if !rq.can(d) || d.owner != "O" || rq.name == "owner" || d.deleted {
+					continue
+				}
+				before, _ := real.gql(octx, fmt.Sprintf(`query { Item(docID: "%s") { k name qty _deleted } }`, d.id))
+				real.gql(rq.ctx, fmt.Sprintf(`mutation { update_Item(docID: "%s", input: {name: "HACKED"}) { _docID } }`, d.id))
+				real.gql(rq.ctx, fmt.Sprintf(`mutation { update_Item(filter: {k: {_eq: %d}}, input: {name: "HACKED"}) { _docID } }`, d.k))
+				if col, err := real.n.DB.GetCollectionByName(rq.ctx, "Item"); err == nil {
+					_, _ = col.UpdateWithFilter(rq.ctx, fmt.Sprintf(`{k: {_eq: %d}}`, d.k), `{"name": "HACKED"}`)
+					_, _ = col.DeleteWithFilter(rq.ctx, fmt.Sprintf(`{k: {_eq: %d}}`, d.k))
+				}
+				real.gql(rq.ctx, fmt.Sprintf(`mutation { delete_Item(docID: "%s") { _docID } }`, d.id))
+				after, _ := real.gql(octx, fmt.Sprintf(`query { Item(docID: "%s") { k name qty _deleted } }`, d.id))
+				e.Res.Evaluations += 5
+				e.count("readonly_write_probes")
+				if canonJSON(before) != canonJSON(after) {
+					e.violate("acp-write-unguarded", fmt.Sprintf("%s may read but not write document k=%d and changed it: before %s after %s", rq.name, d.k, canonJSON(before), canonJSON(after)), map[string]any{"requester": rq.name, "document": d.k})
+				}
+			}
 			twin.close(ctx)
 		}
 		// grant / revoke take effect from the next request
